@@ -200,6 +200,18 @@ class SafetyMonitor(Monitor):
                 ex.report('C17', 'job %s in state %s but not in ready set' % (j, sn), st)
         if dv.startup_done and fin != allfin:
             ex.report('C17', 'is_finished=%s but all jobs finished=%s' % (fin, allfin), st)
+        # ---- C11 (observation point get_job_output): a job that was executed successfully keeps reporting exactly the
+        # output it reported, for the rest of the evaluation (also after its cleanup)
+        for j, t in dv.ok:
+            r = eng.get_job_output(j)
+            if r[0] != 'Done':
+                ex.report('C11', 'get_job_output(%s) = %s although the job was executed successfully' % (j, r[0]), st)
+            else:
+                got = rt.term_of(r[1]) if type(r[1]) in (Out, str) else None
+                if got != t:
+                    ok, model = ex.z.valid_f(st.pc, st.fpc(), F.Eq(got, t)) if got is not None else (False, None)
+                    if not ok:
+                        ex.report('C11', 'get_job_output(%s) is not the output the job reported' % j, st, model=model)
         # ---- first-time offers (C02, C17 offered once)
         new_ready = ready - dv.seen_ready
         for j in sorted(new_ready):
